@@ -74,8 +74,10 @@ of modules updated in place (listed last before the next update), C16 FileIO obj
 symlinked directory, C20 positions beyond a line's end and multi-line strings with separators, C04 block-continuing edits and decorated async definitions,
 C06/C10/C12 continued strings that begin with the other quote and f-string texts compared piece by piece, C07 re-indented lines, C08 escaped
 terminal spellings and a second token namespace (which exposed and led to the repair of a genuine generator defect), C12 special names in
-reading positions, C17 another interpreter's version directory, C18 strict eval_input calls among the concurrent ones.  One change of this
-round (C10-H) is recorded as not caught: it only shows on texts CPython tokenizes but cannot compile, outside the domain C10 judges (7.2e).  One earlier
+reading positions, C17 another interpreter's version directory, C18 strict eval_input calls among the concurrent ones.  A short sixth round (ids I/J; C04 C13 C16 C20, 35 minutes per sub-agent, six changes) was missed four times at first: in-flight
+writes now also hit diff_cache-only parses, a custom grammar loaded from a path shares files and cache directories with the default
+version's grammar, and eight more rule triggers (with-items over global names; BOM followed by a continuation line).  One change of round 5
+(C10-H) is recorded as not caught: it only shows on texts CPython tokenizes but cannot compile, outside the domain C10 judges (7.2e).  One earlier
 change (C19-A) stopped being a defect after a later repair of `_create_params` and is kept for the record only.  Sub-agents also reported defects of the *unchanged* tree that their demonstrations had to
 avoid (list target in a comprehension with a walrus -> UnboundLocalError; f-string text equal to a keyword feeding syntax rules and
 is_generator(); comma lost when `def f(*,)` is rebuilt from its dump; a damaged pickle that still unpickles to a wrong tree -- the
